@@ -299,7 +299,7 @@ def gen_case(r, stream):
 
 def gen_cases(ctx):
     r = ctx.rng
-    n = ctx.n(170, 2600)
+    n = ctx.n(400, 6000)
     cases = []
     for i in range(n):
         q = i % 20
@@ -428,6 +428,8 @@ class Judge:
         empty = (n_valid == 0 or n_vout == 0)
         is_masked = any(msk[i][j] for i in valid_src for j in range(nchan))
         fe = fill_eff(c, is_masked)
+        # input is a numpy.ma array without a masked valid element: the code then computes with numpy.ma arithmetic
+        self.ma_plain = c["mask"] is not None and not is_masked
         fill_none = c["fill"] is None
         wu = c["with_uncert"]
         if wu and o["ret_len"] != 3:
@@ -555,6 +557,9 @@ class Judge:
                     value_ok = False
                     self.bad(key, "%s: result %r, but sum(w*x)/sum(w) over the %d neighbours in range %s is %r (bound %.3g)" % (
                         where, v, len(pres), [(w, x) for w, x, _, _ in pres][:8], float(mean), B))
+        if self.ma_plain and not finite:
+            tolv = float("inf")
+            self.stat("cells_value_not_compared")
         if not c["with_uncert"]:
             return "(%s, %s, %s, None)" % ("true" if m else "false", fhex(v), fhex(tolv))
         # ---------------- count / stddev
@@ -624,6 +629,9 @@ class Judge:
                                 where, sdv, math.sqrt(max(varf, 0.0)), E))
         if tols == float("inf"):
             tols = 1e300
+        if self.ma_plain and (not finite or tols == 1e300):
+            tols = float("inf")         # not compared: numpy.ma arithmetic, see Model/C04_run.v skip
+            self.stat("cells_sd_not_compared")
         return "(%s, %s, %s, Some (%s, %s, %s, %d, %s))" % (
             "true" if m else "false", fhex(v), fhex(tolv), "true" if sdm else "false", fhex(sdv), fhex(tols),
             int(cnv) if cnv == cnv and abs(cnv) < 1e9 and cnv == int(cnv) else -1, "true" if cnm else "false")
